@@ -1,6 +1,6 @@
 SPECIFICATION Spec
 CONSTANTS
-  Templates = {"n", "k", "L2u", "L3u", "N21u", "N23u", "L1"}
+  Templates = {"n", "z", "b", "k", "L2u", "L3u", "N21u", "N23u", "L1"}
   MaxArgs = 3
   FirstList = TRUE
 INVARIANT InvLen
